@@ -2,8 +2,11 @@
 (model: coq/model/Render.v, spec: coq/spec/RenderS.v, proofs: coq/proofs/RenderP.v)."""
 import html
 import json
+import os
+import pickle
 import random
 import re
+import sys
 
 import fw
 import hobs
@@ -770,6 +773,42 @@ class C20(fw.Prop):
         return d
 
     def observe(self, case, ctx):
+        # A history case is observed in a forked child: under a leak (state shared between renderers) a history would
+        # change what every LATER case of this process sees, verdicts would depend on the order of the cases and a
+        # replay file would not reproduce in a fresh process.  The parent never runs a history, so every child starts
+        # from the state of a process that has only made plain renderings.
+        if case.get("hist") and hasattr(os, "fork"):
+            return self.observe_isolated(case, ctx)
+        return self.observe_here(case, ctx)
+
+    def observe_isolated(self, case, ctx):
+        sys.stdout.flush()
+        sys.stderr.flush()
+        r, w = os.pipe()
+        pid = os.fork()
+        if pid == 0:
+            try:
+                os.close(r)
+                try:
+                    data = pickle.dumps(("ok", self.observe_here(case, ctx)))
+                except BaseException as e:
+                    data = pickle.dumps(("raised", type(e).__name__ + ": " + str(e)[:300]))
+                with os.fdopen(w, "wb") as f:
+                    f.write(data)
+            finally:
+                os._exit(0)
+        os.close(w)
+        with os.fdopen(r, "rb") as f:
+            data = f.read()
+        os.waitpid(pid, 0)
+        if not data:
+            raise RuntimeError("isolated observation of a history case died")
+        tag, val = pickle.loads(data)
+        if tag != "ok":
+            raise RuntimeError("isolated observation of a history case raised " + val)
+        return val
+
+    def observe_here(self, case, ctx):
         from hugr.hugr import Hugr
         from hugr.hugr.render import PALETTE, RenderConfig, DotRenderer
         h, p = self.build(case)
